@@ -285,7 +285,7 @@ def rel_matches(reported, xv, mv, mag=None):
     tol = SQ_TOL * (1.0 + m2 / x2)
     d = abs(reported * reported - true_sq)
     return (d <= tol,
-            f"reported {reported!r} (squared {reported * reported:.12e}) vs true {np.sqrt(true_sq)!r} "
+            f"reported {float(reported)!r} (squared {reported * reported:.12e}) vs true {float(np.sqrt(true_sq))!r} "
             f"(squared {true_sq:.12e}): |diff| {d:.3e} > {tol:.3e}",
             float(np.sqrt(true_sq)))
 
@@ -451,9 +451,10 @@ class Adapter:
         return 1.0
 
     # C06: compare one reported value with the truth; returns the true *relative* error
-    gram_shortcut = False     # the library obtains the error from Gram matrices (cancellation scale = cp_spread)
-
     def mag(self, snap):
+        """squared magnitude of the terms that any evaluation of the model adds up (>= ||model||^2);
+        scales the tolerances: a degenerate iterate (huge, mutually cancelling factors) cannot be
+        evaluated - by the library or by the harness - more accurately than eps * mag"""
         return None
 
     def check_reported(self, reported, xv, mv, clause, snap=None):
@@ -475,7 +476,7 @@ class CPAdapter(Adapter):
     copy = staticmethod(copy_cp)
 
     def mag(self, snap):
-        return cp_spread(snap["w"], snap["f"]) if self.gram_shortcut else None
+        return cp_spread(snap["w"], snap["f"])
 
     def mvec(self, snap, data, case=None):
         return cp_model(snap, data.shape).ravel()
@@ -485,8 +486,6 @@ class CPAdapter(Adapter):
 
 
 class Parafac(CPAdapter):
-    gram_shortcut = True
-
     has_callback = True
 
     def run(self, data, case, n_iter, callback=None, return_errors=True):
@@ -527,8 +526,6 @@ class RandomisedParafac(CPAdapter):
 
 
 class NNParafacMU(CPAdapter):
-    gram_shortcut = True
-
     def run(self, data, case, n_iter, callback=None, return_errors=True):
         from tensorly.decomposition import non_negative_parafac
         with global_seed(case["init"]["seed"]):
@@ -540,8 +537,6 @@ class NNParafacMU(CPAdapter):
 
 
 class NNParafacHALS(CPAdapter):
-    gram_shortcut = True
-
     def run(self, data, case, n_iter, callback=None, return_errors=True):
         from tensorly.decomposition import non_negative_parafac_hals
         sc = case.get("sparsity_coefficients")
@@ -583,8 +578,6 @@ CONSTRAINTS = {
 
 
 class ConstrainedParafac(CPAdapter):
-    gram_shortcut = True
-
     def run(self, data, case, n_iter, callback=None, return_errors=True):
         from tensorly.decomposition import constrained_parafac
         with global_seed(case["init"]["seed"]):
@@ -612,6 +605,12 @@ class TuckerHOOI(Adapter):
 
     def mvec(self, snap, data, case=None):
         return tucker_model(snap, data.shape).ravel()
+
+    def mag(self, snap):
+        m = float(np.sum(snap["core"] ** 2))
+        for f in snap["f"]:
+            m *= float(np.linalg.norm(f, 2)) ** 2 if f.size and np.all(np.isfinite(f)) else 1.0
+        return m
 
 
 class PartialTucker(TuckerHOOI):
@@ -703,6 +702,9 @@ class TensorRingALS(Adapter):
     def mvec(self, snap, data, case=None):
         return tr_model(snap, data.shape).ravel()
 
+    def mag(self, snap):
+        return float(np.prod([np.sum(c ** 2) for c in snap["cores"]]))
+
     def run(self, data, case, n_iter, callback=None, return_errors=True):
         from tensorly.decomposition import tensor_ring_als
         kw = dict(ls_solve=case["ls_solve"], n_iter_max=int(n_iter), tol=case["tol"],
@@ -714,7 +716,8 @@ class TensorRingALS(Adapter):
         return out, None
 
     def cond(self, snap, case):
-        return tr_design_cond(snap["cores"]) if case["ls_solve"] == "normal_eq" else 1.0
+        # normal_eq: cond of the Gram (= cond(design)^2) ; lstsq: cond of the design itself
+        return tr_design_cond(snap["cores"]) if case["ls_solve"] == "normal_eq" else tr_lstsq_cond(snap["cores"])
 
 
 class CMTF(Adapter):
@@ -750,13 +753,23 @@ class CMTF(Adapter):
     def copy(self, d):
         return {"x": copy_cp(d[0]), "y": copy_cp(d[1])}
 
+    def mag(self, snap):
+        return cp_spread(snap["x"]["w"], snap["x"]["f"]) + cp_spread(snap["y"]["w"], snap["y"]["f"])
+
+    def cond(self, snap, case):
+        return cmtf_lstsq_cond(snap)
+
     def check_reported(self, reported, xv, mv, clause, snap=None):
         t2, m2, x2 = err_terms(xv, mv)
+        if snap is not None:
+            m2 = max(m2, self.mag(snap))
         check_abs_sq(reported, t2, x2 + m2, clause)
         return float(np.sqrt(t2 / x2))
 
     def matches(self, reported, xv, mv, snap=None):
         t2, m2, x2 = err_terms(xv, mv)
+        if snap is not None:
+            m2 = max(m2, self.mag(snap))
         return abs(float(reported) - t2) <= SQ_TOL * (x2 + m2)
 
     def reported_sq(self, r, x2):
@@ -792,3 +805,220 @@ def prefix_runs(A, data, case, K):
         dec, errs = A.run(data, case, k)
         out.append((k, A.copy(dec), errs))
     return out
+
+
+def trace(A, data, case, via):
+    """iterates of one run: [(sweep index, snapshot)] (index 0 = initial decomposition, only with
+    callbacks), the reported error history (callback values or the error list of the longest run)
+    and the number of sweeps actually executed"""
+    if via == "callback":
+        rec = Recorder(A.copy)
+        dec, errs = A.run(data, case, case["n_iter"], callback=rec, return_errors=True)
+        snaps = list(enumerate(s for (s, _) in rec.calls))
+        if errs is None:
+            errs = [e for (_, e) in rec.calls[1:] if e is not None]
+        return snaps, errs, len(rec.calls) - 1
+    runs = prefix_runs(A, data, case, case["n_iter"])
+    snaps = [(k, s) for (k, s, _) in runs]
+    errs = runs[-1][2]
+    return snaps, errs, (len(errs) if errs is not None else len(runs))
+
+
+def lstsq_cond(mat):
+    """condition number that governs np.linalg.lstsq on `mat`: singular values below
+    eps * max(M, N) * sigma_max are treated as exact rank deficiency (they are truncated
+    by lstsq, which then returns the exact minimum-norm minimiser)"""
+    mat = np.asarray(mat, dtype=float)
+    if not np.all(np.isfinite(mat)):
+        return float("inf")
+    sv = np.linalg.svd(mat, compute_uv=False)
+    if sv.size == 0 or sv[0] == 0:
+        return 1.0
+    kept = sv[sv > np.finfo(float).eps * max(mat.shape) * sv[0]]
+    return float(sv[0] / kept[-1])
+
+
+def tr_lstsq_cond(cores):
+    n = len(cores)
+    worst = 1.0
+    for d in range(n):
+        chain = cores[(d + 1) % n]
+        for j in range(2, n):
+            chain = np.tensordot(chain, cores[(d + j) % n], axes=([chain.ndim - 1], [0]))
+        r1, r0 = chain.shape[0], chain.shape[-1]
+        worst = max(worst, lstsq_cond(np.moveaxis(chain, 0, -1).reshape(-1, r0 * r1)))
+    return worst
+
+
+def cmtf_lstsq_cond(snap):
+    """design matrices of the CMTF block problems, rebuilt from a snapshot: A (for V),
+    khatri-rao of the other two factors (for B, C), [khatri-rao(B, C); V] (for A)"""
+    w, (A_, B_, C_) = snap["x"]["w"], snap["x"]["f"]
+    wy, (Ay, V_) = snap["y"]["w"], snap["y"]["f"]
+    if w is not None:
+        A_ = A_ * w
+    if wy is not None:
+        V_ = V_ * wy
+    worst = lstsq_cond(A_)
+    worst = max(worst, lstsq_cond(ref.khatri_rao([A_, B_])), lstsq_cond(ref.khatri_rao([A_, C_])))
+    worst = max(worst, lstsq_cond(np.concatenate([ref.khatri_rao([B_, C_]), V_], axis=0)))
+    return worst
+
+
+# ----------------------------------------------------------------------------
+# hals_nnls (C07)
+# ----------------------------------------------------------------------------
+@st.composite
+def nnls_case(draw, group):
+    m, r, n = draw(st.integers(2, 6)), draw(st.integers(1, 4)), draw(st.integers(1, 5))
+    c = {"m": m, "r": r, "n": n, "seed": draw(gen.seeds),
+         "ukind": draw(st.sampled_from(["nonneg", "mixed", "zero_col", "collinear"])),
+         "mkind": draw(st.sampled_from(["nonneg", "mixed"])),
+         "v0": draw(st.sampled_from(["none", "warm", "warm", "zeros"])),
+         "n_iter": draw(st.sampled_from([3, 5, 10, 30])), "tol": draw(st.sampled_from([1e-8, 0.0, 1e-2])),
+         "epsilon": draw(st.sampled_from([0.0, 0.0, 1e-3])), "sparsity": None, "ridge": None}
+    if group in ("sparsity", "both"):
+        c["sparsity"] = draw(st.sampled_from([0.01, 0.1, 1.0]))
+    if group in ("ridge", "both"):
+        c["ridge"] = draw(st.sampled_from([0.01, 0.1, 1.0]))
+    return c
+
+
+def nnls_problem(c):
+    rs = np.random.RandomState(int(c["seed"]) % (2 ** 32))
+    m, r, n = c["m"], c["r"], c["n"]
+    U = rs.standard_normal((m, r))
+    if c["ukind"] != "mixed":
+        U = np.abs(U)
+    if c["ukind"] == "zero_col":
+        U[:, rs.randint(0, r)] = 0.0
+    if c["ukind"] == "collinear" and r >= 2:
+        U[:, 1] = U[:, 0] * 2.0
+    M = rs.standard_normal((m, n))
+    if c["mkind"] == "nonneg":
+        M = np.abs(M)
+    V0 = None
+    if c["v0"] == "warm":
+        V0 = np.abs(rs.standard_normal((r, n))) + c["epsilon"]
+    elif c["v0"] == "zeros":
+        V0 = np.zeros((r, n)) + c["epsilon"]
+    return U, M, V0
+
+
+def nnls_objective(U, M, V, c):
+    f = 0.5 * float(np.sum((M - U @ V) ** 2))
+    if c["sparsity"] is not None:
+        f += c["sparsity"] * float(np.sum(V))
+    if c["ridge"] is not None:
+        f += c["ridge"] * float(np.sum(V ** 2))
+    return f
+
+
+def run_hals_nnls(c):
+    """returns [V0 (if supplied), V after iteration 1, 2, ...] as deep copies, and the returned V"""
+    from tensorly.solvers.nnls import hals_nnls
+    U, M, V0 = nnls_problem(c)
+    its = []
+
+    def cb(V, error=None):
+        its.append(_arr(V))
+        return None
+    out = hals_nnls(U.T @ M, U.T @ U, None if V0 is None else V0.copy(), n_iter_max=int(c["n_iter"]),
+                    tol=c["tol"], sparsity_coefficient=c["sparsity"], ridge_coefficient=c["ridge"],
+                    exact=False, epsilon=c["epsilon"], callback=cb)
+    return U, M, V0, its, _arr(out)
+
+
+# ----------------------------------------------------------------------------
+# regressors (C07)
+# ----------------------------------------------------------------------------
+@st.composite
+def regr_case(draw, kind):
+    # samples are at least matrices unless the output modes supply a second factor: with a single
+    # weight factor the library's khatri_rao / kronecker of "all other factors" is an empty product and raises
+    p = draw(st.integers(1 if kind == "cp_out" else 2, 3))
+    xs = [draw(st.integers(2, 4 if p < 3 else 3)) for _ in range(p)]
+    n = draw(st.integers(3, 12))
+    c = {"n": n, "xs": xs, "seed": draw(gen.seeds), "rs": draw(st.integers(0, 10 ** 6)),
+         "reg": draw(st.sampled_from([0.0, 0.01, 1.0, 1.0, 10.0])), "n_iter": draw(st.sampled_from([3, 4, 6, 9])),
+         "ykind": draw(st.sampled_from(["normal", "linear", "linear_noise"]))}
+    if kind == "cp":
+        c["rank"] = draw(st.integers(1, 3))
+        c["ys"] = []
+    elif kind == "cp_out":
+        c["rank"] = draw(st.integers(1, 3))
+        c["ys"] = [draw(st.integers(1, 3)) for _ in range(draw(st.integers(1, 2)))]
+    else:
+        c["ranks"] = [draw(st.integers(1, min(3, s))) for s in xs]
+        c["ys"] = []
+    return c
+
+
+def regr_data(c):
+    rs = np.random.RandomState(int(c["seed"]) % (2 ** 32))
+    X = rs.standard_normal([c["n"]] + list(c["xs"]))
+    ysh = [c["n"]] + list(c["ys"])
+    if c["ykind"] == "normal":
+        y = rs.standard_normal(ysh)
+    else:
+        T = rs.standard_normal(list(c["xs"]) + list(c["ys"]))
+        y = np.tensordot(X, T, axes=len(c["xs"]))
+        if c["ykind"] == "linear_noise":
+            y = y + 0.1 * rs.standard_normal(ysh)
+    return X, y
+
+
+def regr_fit(c, kind, n_iter):
+    """fit with n_iter_max = n_iter; returns the snapshot of the fitted weights and the number of iterations"""
+    X, y = regr_data(c)
+    if kind in ("cp", "cp_out"):
+        from tensorly.regression.cp_regression import CPRegressor
+        est = CPRegressor(weight_rank=int(c["rank"]), tol=0.0, reg_W=c["reg"], n_iter_max=int(n_iter),
+                          random_state=int(c["rs"]), verbose=0)
+        est.fit(X.copy(), y.copy())
+        snap = copy_cp(est.cp_weight_)
+    else:
+        from tensorly.regression.tucker_regression import TuckerRegressor
+        est = TuckerRegressor(weight_ranks=[int(r) for r in c["ranks"]], tol=0.0, reg_W=c["reg"],
+                              n_iter_max=int(n_iter), random_state=int(c["rs"]), verbose=0)
+        est.fit(X.copy(), y.copy())
+        snap = copy_tucker(est.tucker_weight_)
+    return snap, int(est.n_iterations_)
+
+
+def regr_blocks(snap, kind):
+    """the parameter blocks of a snapshot, in update order"""
+    if kind in ("cp", "cp_out"):
+        return list(snap["f"])
+    return list(snap["f"]) + [snap["core"]]
+
+
+def regr_weight(blocks, kind, c):
+    shape = list(c["xs"]) + list(c["ys"])
+    if kind in ("cp", "cp_out"):
+        return _dense(lambda: ref.cp_dense(None, blocks), "regressor weights", shape)
+    return _dense(lambda: ref.tucker_dense(blocks[-1], blocks[:-1]), "regressor weights", shape)
+
+
+def regr_objective(blocks, kind, c, X, y):
+    T = regr_weight(blocks, kind, c)
+    res = y - np.tensordot(X, T, axes=len(c["xs"]))
+    return float(np.sum(res ** 2)) + c["reg"] * sum(float(np.sum(b ** 2)) for b in blocks)
+
+
+def regr_cond(blocks, kind, c, X):
+    """worst condition number of (Phi_i^T Phi_i + reg I) over the blocks, Phi_i obtained by
+    linearity: column j = prediction with block i replaced by the j-th unit array"""
+    worst = 1.0
+    p = len(c["xs"])
+    for i, b in enumerate(blocks):
+        cols = []
+        for j in range(b.size):
+            e = np.zeros(b.size)
+            e[j] = 1.0
+            bl = list(blocks)
+            bl[i] = e.reshape(b.shape)
+            cols.append(np.tensordot(X, regr_weight(bl, kind, c), axes=p).ravel())
+        phi = np.stack(cols, axis=1)
+        worst = max(worst, cond2(phi.T @ phi + c["reg"] * np.eye(b.size)))
+    return worst
